@@ -484,6 +484,46 @@ def rule_noop(ctx, rep):
             r.ok(inst, loc_str(b.f, s[3]))
 
 
+BYTE_FIELDS = {("ironplc_dsl::diagnostic::Location", "start"), ("ironplc_dsl::diagnostic::Location", "end"),
+               ("ironplc_dsl::core::SourceSpan", "start"), ("ironplc_dsl::core::SourceSpan", "end")}
+BYTE_CALLS = re.compile(r"(^|::)(core::str::(<impl str>::)?(len|find|rfind|find_map|match_indices|rmatch_indices|char_indices|as_bytes|bytes)|"
+                        r"alloc::string::String::len|core::char::methods::<impl char>::len_utf8|core::str::len|core::str::find|core::str::rfind|"
+                        r"logos::Lexer<'source, Token>::span|logos::lexer::Lexer<'source, Token>::span)$")
+
+
+def rule_units(ctx, rep, rid="R-C05-units"):
+    """The editor protocol counts `character` in characters of the line; labels carry byte offsets.  A `character` value computed by
+    arithmetic on byte quantities (offset - line start, str::len, find/rfind results) is off by one per multi-byte character before
+    the label on its line.  Numbers obtained from *text* cut out with byte offsets (chars().count(), a per-char counter) are fine:
+    the numeric slice does not pass through text."""
+    from vlib.numflow import sources_of
+    r = rep.rule(rid, "the `character` of every lsp_types::Position built in lsp_project is not computed from byte quantities: its numeric "
+                      "backward slice (through closures/helpers) reaches no label/span byte offset and no byte-length/byte-index call", floor=2,
+                 floor_what="Position::new calls fed by non-constant values")
+    n = 0
+    for b in sorted(ctx.prog.bodies.values(), key=lambda x: x.id):
+        if b.f["crate"] != "ironplcc" or "::lsp_project::" not in norm(b.id):
+            continue
+        k = 0
+        for c in sorted(b.calls(), key=lambda c: (c.loc[0], c.loc[1])):
+            if c.callee != "lsp_types::Position::new" or len(c.args) != 2:
+                continue
+            if c.args[1][0] == "c":
+                continue
+            k += 1
+            n += 1
+            src = sources_of(ctx.prog, b, c.args[1])
+            bad = sorted("%s.%s" % (x[1].split("::")[-1], x[2]) for x in src if x[0] == "field" and (x[1], x[2]) in BYTE_FIELDS)
+            bad += sorted(x[1] for x in src if x[0] == "call" and BYTE_CALLS.search(x[1]))
+            inst = "%s|Position::new#%d character" % (norm(b.id).replace("ironplcc::", ""), k)
+            if bad:
+                r.finding(inst + "|byte-valued", loc_str(b.f, c.loc), "the character position is computed from byte quantities (%s): every multi-byte "
+                          "character before the label on its line shifts the published range" % ", ".join(bad))
+            else:
+                r.ok(inst, loc_str(b.f, c.loc), "sources: " + ", ".join(sorted("%s %s" % (x[0], x[-1]) for x in src))[:160])
+    r.note("%d Position::new calls with computed character" % n)
+
+
 def run(ctx, rep):
     rep.not_decided += ["tiling/contiguity of token spans, line/column arithmetic values, CRLF and multi-byte behaviour", "that a label covers the *right* construct",
                         "observation (not claimed): the OSCAT pre-processor blanks per character, shifting offsets after non-ASCII header text"]
@@ -493,3 +533,4 @@ def run(ctx, rep):
     rule_copy(ctx, rep)
     rule_end(ctx, rep)
     rule_noop(ctx, rep)
+    rule_units(ctx, rep)
